@@ -210,6 +210,8 @@ def c03(tier):
               if tier == "quick" else
               "MaxT = 2 MaxId = 5 MaxSteps = 1 MaxExt = 2\n Menu <- MenuTies Seed = TRUE Starts = {0, 2} Limits <- LimitsNone HeapInit = FALSE")
     c_rt.gen_replay(v, wd, tier, "C03", consts, 8, "handlers emitting same-instant bursts and zero-delay follow-ups")
+    # V: long random histories incl. floods of 66..105 events for the current instant (more than any fixed-size fast path holds)
+    record_and_validate(v, wd, tier, "C03")
     # net level: messages and self-messages emitted by one handler for the same future instants (buffer flush order)
     import c_net
     c_net.run_scn(v, wd, "C03", c_net.Scn("burst", menu="MenuBurst", start="StartBurst", tx="TxZero", lat="Lat1",
